@@ -33,6 +33,7 @@ class TW(object):
         self.cancel_scopes = []
         self.hops = {}
         self.hop_frames = {}
+        self.hop_abandon = {}
 
     def C(self):
         self.cond += 1
@@ -71,11 +72,19 @@ class TW(object):
         trio = self.trio
         self.hop_frames.setdefault(key, []).append(sys._getframe(0))
         if depth > 0:
-            return await trio.to_thread.run_sync(self.sync_fn, depth - 1, key)
+            return await trio.to_thread.run_sync(self.sync_fn, depth - 1, key, abandon_on_cancel=self.next_abandon(key))
         t = trio.lowlevel.current_task()
         self.info.setdefault(t, {})["blocks"] = ("body", -1)
         self.parked += 1
         await self.never.wait()
+
+    def foreign_fn(self, depth, key, token):
+        """Body of a thread that Trio did not start: gets into Trio with an explicit token."""
+        self.hop_frames.setdefault(key, []).append(sys._getframe(0))
+        try:
+            self.trio.from_thread.run(self.async_fn, depth, key, trio_token=token)
+        except BaseException:
+            pass
 
     async def hop(self, depth, key):
         """to_thread/from_thread ping-pong of the given alternation depth, ending parked."""
@@ -86,7 +95,18 @@ class TW(object):
         self.hops[key] = depth
         t = self.trio.lowlevel.current_task()
         self.info.setdefault(t, {})["blocks"] = ("hop", depth, key)
-        await self.trio.to_thread.run_sync(self.sync_fn, depth, key)
+        # whether each to_thread.run_sync of the chain may abandon its thread on cancellation: a
+        # re-entrant from_thread.run is then served by a system task instead of the waiting task.
+        # Drawn here, in task context (the order in which worker threads get back into Trio is
+        # not the tape's).
+        self.hop_abandon[key] = [self.tape.choose(3) == 2 for _ in range(depth // 2 + 1)]
+        if any(self.hop_abandon[key][: (depth + 1) // 2]):
+            self.ctx.stat("reentrant_call_served_by_system_task")
+        await self.trio.to_thread.run_sync(self.sync_fn, depth, key, abandon_on_cancel=self.next_abandon(key))
+
+    def next_abandon(self, key):
+        flags = self.hop_abandon.get(key)
+        return bool(flags.pop(0)) if flags else False
 
 
 class TrioGen(object):
@@ -299,6 +319,39 @@ def run_tree(ctx):
     exec(compile(text, filename, "exec"), ns)
     result = {}
 
+    # a thread that Trio did not start, calling into Trio with a token (alternation depth 0-3 from there)
+    foreign = None
+    if tape.choose(3) == 2:
+        fdepth = tape.choose(4)
+        fkey = ("foreign", 0)
+        W.hop_abandon[fkey] = [tape.choose(3) == 2 for _ in range(fdepth // 2 + 1)]
+        foreign = {"depth": fdepth, "key": fkey}
+        W.expected_parked += 1
+        ctx.stat("foreign_thread_chains")
+
+    def check_foreign():
+        th = foreign["thread"]
+        with warnings.catch_warnings(record=True) as wl:
+            warnings.simplefilter("always")
+            st = stackscope.extract(th)
+        bad = [w for w in wl if issubclass(w.category, stackscope.InspectionWarning)]
+        if bad:
+            raise Violation("c14_warning", "InspectionWarning while extracting the foreign thread: %s" % str(bad[0].message)[:200], {})
+        if st.error is not None:
+            raise Violation("c14_error", "extract(foreign thread).error = %r" % (st.error,), {})
+        vis = [f for f in st.frames if not f.hide]
+        names = [f.funcname for f in vis if f.funcname in ("foreign_fn", "sync_fn", "async_fn")]
+        exp = ["foreign_fn"] + ["async_fn" if k % 2 == 0 else "sync_fn" for k in range(foreign["depth"] + 1)]
+        got_frames = [f.pyframe for f in vis if f.funcname in ("foreign_fn", "sync_fn", "async_fn")]
+        exp_frames = W.hop_frames.get(foreign["key"], [])
+        if names != exp or len(got_frames) != len(exp_frames) or any(a is not b for a, b in zip(got_frames, exp_frames)):
+            raise Violation(
+                "c14_thread_hops",
+                "foreign thread in from_thread.run(trio_token=...), alternation depth %d: world frames %r, expected %r (all visible: %r)"
+                % (foreign["depth"], names, exp, [f.funcname for f in vis]),
+                {"depth": foreign["depth"], "foreign": True},
+            )
+
     async def controller(main_nursery):
         await trio.testing.wait_all_tasks_blocked()
         # worker threads are real: wait until every hop chain is parked
@@ -325,6 +378,8 @@ def run_tree(ctx):
                     raise Violation("c14_warning", "InspectionWarning: %s" % str(result["warnings"][0].message)[:200], {})
                 walk_check(ctx, W, root, st)
                 check_stubs(ctx, st_stub)
+                if foreign is not None:
+                    check_foreign()
             except Violation as v:
                 result["violation"] = v
         finally:
@@ -337,6 +392,11 @@ def run_tree(ctx):
 
     async def main():
         seed_trio(tape)
+        if foreign is not None:
+            th = threading.Thread(target=W.foreign_fn, args=(foreign["depth"], foreign["key"], trio.lowlevel.current_trio_token()), name="vsim-foreign")
+            th.daemon = True
+            foreign["thread"] = th
+            th.start()
         async with trio.open_nursery() as nursery:
             nursery.start_soon(ns[rootname], W)
             nursery.start_soon(controller, nursery)
@@ -345,6 +405,8 @@ def run_tree(ctx):
         trio.run(main)
     finally:
         linecache.cache.pop(filename, None)
+        if foreign is not None and foreign.get("thread") is not None:
+            foreign["thread"].join(20)
     if "harness" in result:
         raise HarnessError(result["harness"])
     if "violation" in result:
